@@ -29,6 +29,18 @@ Dir3(v) == <<v[1], v[2], F0>>
 XYZ(v) == <<v[1], v[2], v[3]>>
 XY(v) == <<v[1], v[2]>>
 
+\* C11 | src/vec.rs reflected, refracted, face_forward, determine_side, signed_triangle_area, homogenized
+\* mirror image of v for a (unit) surface normal n
+Reflect(v, n) == VSub(v, VScale(n, FMul(F2, Dot(v, n))))
+\* GLSL refract for unit incident i, unit normal n, ratio of indices eta; `rootk` is the (non-negative)
+\* square root of k = 1 - eta^2 (1 - (n.i)^2), supplied and checked by the caller
+RefractK(i, n, eta) == FSub(F1, FMul(FSq(eta), FSub(F1, FSq(Dot(n, i)))))
+Refract(i, n, eta, rootk) == VSub(VScale(i, eta), VScale(n, FAdd(FMul(eta, Dot(n, i)), rootk)))
+\* twice the signed area of the triangle (a, b, c): the 2D cross product (b-a) x (c-a)
+Cross2(u, v) == FSub(FMul(u[1], v[2]), FMul(u[2], v[1]))
+DetermineSide(c, a, b) == Cross2(VSub(b, a), VSub(c, a))
+Homogenized(v) == VScale(v, FInv(v[4]))
+
 ---------------------------------------------------------------------------
 QV(q) == <<q[1], q[2], q[3]>>
 QS(q) == q[4]
